@@ -479,7 +479,7 @@ func runFuzz(root, pkg string, f FuzzSpec, scratch string) (note, crasher string
 	// native fuzzing: cannot be pinned to a seed; a time-out is never a violation
 	cacheDir := filepath.Join(scratch, "fuzzcache-"+f.Name)
 	pkgDir := filepath.Join(root, pkg)
-	args := []string{"test", "-vet=off", "-run", "^$", "-fuzz", "^" + f.Name + "$", "-fuzztime", fmt.Sprintf("%ds", f.Seconds), "-test.fuzzcachedir", cacheDir, pkg}
+	args := []string{"test", "-vet=off", "-run", "^$", "-fuzz", "^" + f.Name + "$", "-fuzztime", fmt.Sprintf("%ds", f.Seconds), pkg, "-test.fuzzcachedir", cacheDir}
 	cmd := exec.Command("go", args...)
 	cmd.Dir = root
 	cmd.Env = goEnv()
@@ -492,6 +492,10 @@ func runFuzz(root, pkg string, f FuzzSpec, scratch string) (note, crasher string
 		execs = m[len(m)-1][1]
 	}
 	note = fmt.Sprintf("%s: %ds, execs=%s", f.Name, f.Seconds, execs)
+	if execs == "" {
+		note += " DID-NOT-RUN: " + firstLineWith(out, "")
+		fmt.Printf("INCONCLUSIVE fuzz target %s did not run:\n%s\n", f.Name, tail(out, 10))
+	}
 	if err != nil && strings.Contains(out, "Failing input written to") {
 		// move the crasher out of the package tree into replays
 		m := regexp.MustCompile(`Failing input written to (\S+)`).FindStringSubmatch(out)
